@@ -35,6 +35,73 @@ func (g *c09gen) tok() string {
 func (g *c09gen) page() c09page {
 	rng := g.rng
 	p := c09page{w: 612, h: 792}
+	if rng.Chance(1, 8) {
+		// a sparse page of display text: a few fragments of very different sizes whose boxes overlap one another
+		p.kind = "display"
+		n := rng.Range(2, 8)
+		y := 720
+		if rng.Bool() {
+			// small one-line fragments side by side on staggered rows, a wide tall one just below whose box reaches up into them
+			p.kind = "display-banner"
+			k := rng.Range(2, 4)
+			x := 60 + 10*rng.Intn(6)
+			x0 := x
+			for i := 0; i < k; i++ {
+				w := 40 + 10*rng.Intn(8)
+				t := g.tok()
+				p.frags = append(p.frags, text.TextFragment{Text: t, X: float64(x), Y: float64(y - 10*rng.Intn(3) - 15*i), Width: float64(w), Height: 12, FontSize: 12, FontName: "F1"})
+				p.tokens = append(p.tokens, c09Tok.FindAllString(t, -1)...)
+				x += w + 60 + 10*rng.Intn(8)
+			}
+			size := []int{40, 70, 90}[rng.Intn(3)]
+			t := g.tok()
+			p.frags = append(p.frags, text.TextFragment{Text: t, X: float64(x0), Y: float64(y - 15*k - 20 - 10*rng.Intn(4)), Width: float64(x - x0 - 60), Height: float64(size), FontSize: float64(size), FontName: "F1"})
+			p.tokens = append(p.tokens, c09Tok.FindAllString(t, -1)...)
+			n = rng.Range(0, 3)
+			y -= 15*k + 140
+		}
+		for i := 0; i < n; i++ {
+			size := []int{12, 12, 12, 30, 70}[rng.Intn(5)]
+			t := g.tok()
+			f := text.TextFragment{Text: t, X: float64(40 + 10*rng.Intn(40)), Y: float64(y), Width: float64(50 + 10*rng.Intn(30)), Height: float64(size), FontSize: float64(size), FontName: "F1"}
+			p.frags = append(p.frags, f)
+			p.tokens = append(p.tokens, c09Tok.FindAllString(t, -1)...)
+			y -= []int{8, 15, 20, 40, 90}[rng.Intn(5)]
+			if y < 60 {
+				break
+			}
+		}
+		return p
+	}
+	if rng.Chance(1, 6) {
+		// two or three columns on integer coordinates with short fragments centred exactly on the middle of a gutter
+		p.kind = "gutter-centre"
+		ncol := rng.Range(2, 3)
+		words := rng.Range(3, 5)
+		wordW, step := 40, 47
+		colW := (words-1)*step + wordW
+		gap := []int{40, 52, 60}[rng.Intn(3)]
+		left := 50
+		rows := rng.Range(8, 14)
+		for c := 0; c < ncol; c++ {
+			x0 := left + c*(colW+gap)
+			for rw := 0; rw < rows; rw++ {
+				for k := 0; k < words; k++ {
+					t := g.tok()
+					p.frags = append(p.frags, text.TextFragment{Text: t, X: float64(x0 + k*step), Y: float64(700 - 13*rw), Width: float64(wordW), Height: 10, FontSize: 10, FontName: "F1", Direction: text.LTR})
+					p.tokens = append(p.tokens, c09Tok.FindAllString(t, -1)...)
+				}
+			}
+		}
+		// below the columns: one short fragment (a page number) whose centre lies within two points of the middle of
+		// the first gutter, on a half-point grid: the detector's own gutter centre is one of these positions
+		centre := float64(left+colW) + float64(gap)/2
+		d := float64(rng.Range(-4, 4)) / 2
+		t := g.tok()
+		p.frags = append(p.frags, text.TextFragment{Text: t, X: centre + d - 5, Y: float64([]int{100, 60, 700 - 13*rows - 40}[rng.Intn(3)]), Width: 10, Height: 10, FontSize: 10, FontName: "F1", Direction: text.LTR})
+		p.tokens = append(p.tokens, c09Tok.FindAllString(t, -1)...)
+		return p
+	}
 	ncol := rng.Range(1, 4)
 	p.kind = fmt.Sprintf("%dcol", ncol)
 	margin := 50.0
@@ -278,6 +345,28 @@ func init() {
 						}
 					}
 					check("paragraphs-lines", found, wantFrag)
+				}
+			}
+			// the detectors on their own (each is public API with its own defaults)
+			if !chars {
+				if bl := layout.NewBlockDetector().Detect(p.frags, p.w, p.h); bl != nil {
+					var found []string
+					for _, b := range bl.Blocks {
+						found = append(found, fragTokens(b.Fragments)...)
+					}
+					check("block-detector-fragments", found, wantFrag)
+					check("block-detector-all-fragments", fragTokens(bl.GetAllFragments()), wantFrag)
+				}
+				if cl := layout.NewColumnDetector().Detect(p.frags, p.w, p.h); cl != nil {
+					var found []string
+					for _, c := range cl.Columns {
+						found = append(found, fragTokens(c.Fragments)...)
+					}
+					found = append(found, fragTokens(cl.SpanningFragments)...)
+					check("column-detector-fragments", found, wantFrag)
+				}
+				if ro := layout.NewReadingOrderDetector().Detect(p.frags, p.w, p.h); ro != nil {
+					check("reading-order-detector-fragments", fragTokens(ro.Fragments), wantFrag)
 				}
 			}
 			// texts: the non-whitespace characters as a multiset (the duplicate layer counted once)
